@@ -49,7 +49,9 @@ func init() {
 			Req: []string{"is($tokenRequest, TokenExchangeRequest)"}},
 		{ID: "E7.te.refresh-token-iff-requested.only", Fn: "op.needsRefreshToken", P: []string{"tokenRequest", "client"}, Kind: "ret any", Max: 5},
 		{ID: "E1.te.response.only", Fn: "op.CreateTokenExchangeResponse", Kind: "ret ok", Max: 1},
-		{ID: "E7.te.issupported", Fn: "oidc.TokenType.IsSupported", P: []string{"t"}, Kind: "ret any", Pat: "ret(slices.Contains(oidc.AllTokenTypes, $t))", Max: 1},
+		{ID: "E7.te.issupported", Fn: "oidc.TokenType.IsSupported", P: []string{"t"}, Kind: "ret ok", Req: []string{"member($t, oidc.AllTokenTypes)"},
+			Why: "a token type is supported exactly when it is one of the four listed types"},
+		{ID: "E7.te.issupported.only", Fn: "oidc.TokenType.IsSupported", P: []string{"t"}, Kind: "ret fail", Req: []string{"notmember($t, oidc.AllTokenTypes)"}},
 	}
 	register(&PropSpec{
 		ID: "C15",
